@@ -470,5 +470,54 @@ func legRobust(c *Ctx) {
 		}
 		c.Add(cs)
 	}
+	// every prefix and every suffix of a matching text, for patterns of each candidate-finder mode: a finder that probes
+	// the character after / before what it found must find the end of the input first
+	cutCalls := 0
+	for _, pt := range []struct{ pat, text string }{
+		{`\w+\s+at\s+\w+\s+dot\s+com`, "user at example dot com"}, {`[a-z]*(\s+[ab]{1,2}\s+)[a-z]*(\s+cd)`, "xxxx ab yy cd"},
+		{`[ae]*(?:\s*x| )b[cd]`, "a\t xbc"}, {`[xy]*(?:[a ]{1,3}\s+|q)b(d)`, "a  bd"}, {`\w*@\w+\.com`, "me@host.com"}, {`\s*=\s*\d+;`, "  = 42;"},
+		{`..abc`, "xyabc"}, {`[ab].[cd]e`, "axce"}, {`(?i)hello\d`, "HeLLo7"}, {`(?:abc|abd|xyz)\d`, "xyz1"}, {`a{3}b`, "aaab"}, {`\d+-\d+-\d+`, "12-34-56"},
+	} {
+		for _, ro := range []regexp2.RegexOptions{0, regexp2.RightToLeft, regexp2.IgnoreCase} {
+			re, err := regexp2.Compile(pt.pat, ro)
+			if err != nil {
+				continue
+			}
+			re.MatchTimeout = 200 * time.Millisecond
+			var bad []string
+			rs := []rune(pt.text)
+			for cut := 0; cut <= len(rs) && len(bad) == 0; cut++ {
+				for _, in := range []string{string(rs[:cut]), string(rs[cut:]), string(rs[:cut]) + string(rs[:cut])} {
+					cutCalls++
+					guarded(fmt.Sprintf("all methods on %q", in), &bad, false, func() error {
+						if _, err := re.MatchString(in); err != nil {
+							return err
+						}
+						m, err := re.FindStringMatch(in)
+						for k := 0; m != nil && err == nil && k < len(in)+2; k++ {
+							m, err = re.FindNextMatch(m)
+						}
+						if err != nil {
+							return err
+						}
+						if _, err := re.FindAllStringIndex(in, -1); err != nil {
+							return err
+						}
+						if _, err := re.Replace(in, "<$0>", -1, -1); err != nil {
+							return err
+						}
+						_, err = re.Split(in, -1)
+						return err
+					})
+				}
+			}
+			cs := &Case{Desc: fmt.Sprintf("every prefix and suffix of %q for pattern %+q options=%#x", pt.text, pt.pat, int(ro)), Nontrivial: true, Key: pt.pat + fmt.Sprint(ro), Class: "cut-text"}
+			if len(bad) > 0 {
+				cs.Direct = strings.Join(bad, " | ")
+			}
+			c.Add(cs)
+		}
+	}
+	c.Gate("cut-text sweep ran", cutCalls > 500)
 	c.Gate("truncation sweep ran", truncs > 10000)
 }
